@@ -29,9 +29,6 @@ import Pithos.Model.ObjectCache
 import Pithos.Gen.ObjectCache
 open Pithos Pithos.Proto Pithos.ObjectCache
 
-/-- **Line to flip** once `fixes/C20-restore-key-on-cache-hit.patch` is committed: `true`. -/
-def codeKeepsKey : Bool := false
-
 def kvOf (toks : List String) (k : String) : String :=
   match toks.find? (fun t => t.startsWith (k ++ "=")) with
   | some t => (t.drop (k.length + 1)).toString
@@ -143,7 +140,7 @@ def outToR : Out → R
   | _ => .bad "no-result"
 
 /-- One `rd` line: tie + judge. -/
-def SeqSt.read (s : SeqSt) (p : Params) (evicting : Bool) (t : List String) : SeqSt := Id.run do
+def SeqSt.read (s : SeqSt) (p : Params) (evicting directed : Bool) (t : List String) : SeqSt := Id.run do
   let kind := t.getD 1 ""
   let key : Key := t.getD 2 "" ++ "/" ++ t.getD 3 ""
   let vid := kvOf t "vid"
@@ -173,7 +170,11 @@ def SeqSt.read (s : SeqSt) (p : Params) (evicting : Bool) (t : List String) : Se
     else if mw != inn then
       match mw with
       | .ok h _ =>
-        if h.key == "" then s := s.addVio "C20.cached-object-key-empty" s!"{where_}:Object.Key-is-empty-on-a-cache-hit"
+        -- deterministic on every cache hit: raised in the directed cases only, counted elsewhere (`check` drops
+        -- the tie divergences of a case that has a violation; this keeps the tie visible in the generated cases)
+        if h.key == "" then
+          if directed then s := s.addVio "C20.cached-object-key-empty" s!"{where_}:Object.Key-is-empty-on-a-cache-hit"
+          else s := s.stat "rd_key_empty_on_cache_hit"
         else s := s.addVio "C20.read-differs-in-key" s!"{where_}:middleware={headTok mw}:inner={headTok inn}"
       | _ => pure ()
   -- ---- tie: the model
@@ -196,10 +197,10 @@ def SeqSt.read (s : SeqSt) (p : Params) (evicting : Bool) (t : List String) : Se
       let pred := outToR r.2
       -- a partial read returns a prefix of the body: only the head part is predicted
       let same := if kind == "gethalf" then
-          (match pred, mw with
+          (match pred.noKey, mw.noKey with
            | .ok h _, .ok h' _ => h == h'
            | a, b => a == b)
-        else pred == mw
+        else pred.noKey == mw.noKey
       if firstPred == "" then firstPred := s!"{headTok pred}/calls={predCalls}"
       if same && predCalls == calls then
         matched := true
@@ -212,9 +213,11 @@ def SeqSt.read (s : SeqSt) (p : Params) (evicting : Bool) (t : List String) : Se
   return s
 
 def judgeSeq (cfg : List String) (lines : List String) : Verdict := Id.run do
+  let directed := kvOf cfg "gen" == "directed"
   let maxObj := (kvOf cfg "maxobj").toNat!
   let evicting := kvOf cfg "policy" != "none"
-  let p : Params := ⟨modeOfTable Gen.ObjectCache.overrides, codeKeepsKey, maxObj⟩
+  -- whether `Object.Key` survives the cache is the judge's business (below); the tie compares modulo the key
+  let p : Params := ⟨modeOfTable Gen.ObjectCache.overrides, false, maxObj⟩
   let mut s : SeqSt := {}
   for l in lines do
     let t := tokens l
@@ -240,7 +243,7 @@ def judgeSeq (cfg : List String) (lines : List String) : Verdict := Id.run do
         s := s.applyCall p op ok [] data size (parseR (kvOf rest "inhead"))
         s := { s with pending := none, pendRes := none }
       | _, _ => s := { s with div := s.div ++ ["aux-without-put"] }
-    | "rd" :: _ => s := s.read p evicting t
+    | "rd" :: _ => s := s.read p evicting directed t
     | _ => s := { s with div := s.div ++ [s!"unparsable-line:{l.take 40}"] }
   return {
     diverge := s.div, violations := s.vio,
